@@ -345,6 +345,15 @@ pub fn base_sources(tier: Tier) -> Vec<(String, String)> {
     for (i, bad) in [":", "::", ",", "(", ")", "{", "}", "<", ">", "_", "x", "$T", "Bb"].iter().enumerate() {
         v.push((format!("bad-token-{i}"), format!("start A {bad} struct B ( $T )")));
     }
+    // ... and directly followed by a token of every kind (where the two may touch, the empty gap is a re-layout)
+    {
+        let kinds = [":", "::", ",", "(", ")", "{", "}", "<", ">", "_", "x", "$T", "#[a]"];
+        for (i, bad) in kinds.iter().enumerate() {
+            for (j, next) in kinds.iter().enumerate() {
+                v.push((format!("bad-token-{i}-then-{j}"), format!("start A {bad} {next} B")));
+            }
+        }
+    }
     for (i, (pre, bad)) in [("struct A {", ":"), ("struct A { x", "::"), ("struct A ( $T", ":"), ("terminal Tok { $T :", ":"), ("terminal Tok { $T : a <", ","), ("terminal Tok { $T : a ::", "::"), ("enum A { V (", "start"), ("#[a]", "start"), ("struct A { _", "$T")].iter().enumerate() {
         v.push((format!("bad-token-in-context-{i}"), format!("{pre} {bad} B }} terminal Tok {{ }}")));
     }
